@@ -1609,7 +1609,7 @@ def snapshot(obj):
         return ("list", [snapshot(v) for v in obj])
     return ("val", repr(obj))
 
-CONTAINERS = ["list", "np_c", "np_f", "np_int", "series", "frame", "view"]
+CONTAINERS = ["list", "np_c", "np_f", "np_int", "series", "frame", "view", "np_small"]
 
 def to_container(vals, kind, is_matrix=False, integral=False):
     import pandas as pd
@@ -1624,6 +1624,20 @@ def to_container(vals, kind, is_matrix=False, integral=False):
         return np.asfortranarray(a) if is_matrix else a.copy()
     if kind == "np_int":
         return a.astype(np.int64) if integral and a.dtype.kind == "f" and np.all(a == np.round(a)) else a.copy()
+    if kind == "np_small":
+        # the narrowest integer type that holds the values (uint8 / int8 / int16), boolean for 0/1 data: products taken in that
+        # type would overflow or be combined logically
+        if integral and a.dtype.kind == "f" and a.size and np.all(a == np.round(a)):
+            lo, hi = a.min(), a.max()
+            if is_matrix and lo >= 0 and hi <= 1:
+                return a.astype(bool)
+            if lo >= 0 and hi <= 255:
+                return a.astype(np.uint8)
+            if lo >= -128 and hi <= 127:
+                return a.astype(np.int8)
+            if lo >= -32768 and hi <= 32767:
+                return a.astype(np.int16)
+        return a.copy()
     if kind == "series":
         if is_matrix:
             if a.shape[1] == 1 and a.shape[0] > 1:
@@ -1667,9 +1681,29 @@ def gen_c18_inplace(rng):
     base = {"arms": arms, "lp": lp, "np": npol, "seed": rng.randint(0, 10**6), "ops": ops, "label": "int", "mode": "tol", "reward_style": "smallint"}
     return {"base": base, "kind": "np_c"}
 
+def gen_c18_small_ints(rng):
+    """count features and ratings in the narrowest integer type (uint8 / int8 / bool): sums of products of such values leave the
+    type's range after a few rows - a linear policy must not take them in the data's dtype"""
+    kind = rng.choice(["lingreedy", "linucb"])
+    d = rng.randint(1, 3)
+    arms = rng.sample(range(1, 9), 2)
+    lp = (kind, 0.0 if kind == "lingreedy" else 0.5, rng.choice([0.5, 1.0, 2.0]), rng.random() < 0.3, True)
+    hi = rng.choice([1, 9, 20])
+    rc = lambda n: [[float(rng.randint(0, hi)) for _ in range(d)] for _ in range(n)]
+    n0 = rng.randint(20, 40)
+    ops = [("fit", [rng.choice(arms) for _ in range(n0)], [float(rng.randint(0, 9)) for _ in range(n0)], rc(n0)), ("pexp", rc(3))]
+    n1 = rng.randint(5, 15)
+    ops += [("pfit", [rng.choice(arms) for _ in range(n1)], [float(rng.randint(0, 9)) for _ in range(n1)], rc(n1)), ("pexp", rc(2)), ("pred", rc(2))]
+    npol = rng.choice([None, None, ("knearest", 3, "euclidean")])
+    base = {"arms": arms, "lp": lp, "np": npol, "seed": rng.randint(0, 10**6), "ops": ops, "label": "int", "mode": "tol", "reward_style": "smallint"}
+    return {"base": base, "kind": "np_small"}
+
 def gen_c18(rng, tier):
-    if rng.random() < 0.08:
+    z0 = rng.random()
+    if z0 < 0.08:
         return gen_c18_inplace(rng)
+    if z0 < 0.14:
+        return gen_c18_small_ints(rng)
     z = rng.random()
     if z < 0.35:
         base = gen.gen_cf_case(rng, max_ops=5, warm=True, styles=["smallint", "binary", "dyadic"])
